@@ -137,7 +137,12 @@ fn evaluate_source(
                             match pair.as_rule() {
                                 Rule::identifier => {
                                     let identifier = pair.as_str();
-                                    if let Some(value) = bindings.get(identifier) {
+                                    // A built-in function name is not a binding; its value
+                                    // is what the declaration evaluated to
+                                    let declared = bindings
+                                        .get(identifier)
+                                        .or_else(|| result.as_ref().ok().copied());
+                                    if let Some(value) = declared {
                                         // Validate that the value is portable
                                         if let Err(e) = validate_portable_value(
                                             &value,
